@@ -273,13 +273,30 @@ func newKit(s *vrt.Sched, o kitOpts) *kit {
 	return newKitCfg(s, cfg)
 }
 
+// kitViaSwitch: when set, every kit starts under another strategy and is switched to the
+// requested one at run time (SetStrategy, what the admin API calls): a strategy is the same
+// strategy whichever way it was selected.
+var kitViaSwitch bool
+
 func newKitCfg(s *vrt.Sched, cfg *config.Config) *kit {
 	k := &kit{s: s, cfg: cfg, byHost: map[string]*stub{}}
 	// the default transport serves the active probes of this execution
 	http.DefaultTransport = &stubRT{k: k, probe: true}
+	want := cfg.LoadBalancer.Strategy
+	if kitViaSwitch {
+		cfg.LoadBalancer.Strategy = map[bool]string{true: "ip_hash", false: "round_robin"}[want == "round_robin" || want == ""]
+	}
 	lb, err := NewLoadBalancer(cfg)
 	if err != nil {
 		panic("NewLoadBalancer: " + err.Error())
+	}
+	if kitViaSwitch {
+		if want == "" {
+			want = "round_robin"
+		}
+		if err := lb.SetStrategy(want); err != nil {
+			panic("SetStrategy: " + err.Error())
+		}
 	}
 	k.lb = lb
 	for _, b := range lb.strategy.GetBackends() {
